@@ -139,6 +139,7 @@ pub fn run(cfg: &Cfg, rep: &mut Report) {
         tweak,
         fixed: { let mut f = super::diff::fixed_corpus(); f.extend(super::diff::first_position_shapes()); f }, templates: true };
     let opts = DriveOpts { budget: if cfg.quick() { 120 } else { 350 }, n_long: 2, n_plant: 2, ascii_only: false, sample_every: 299 };
+    FOLDRANGE_ALL.store(true, std::sync::atomic::Ordering::Relaxed);
     let c = C01 { limits: RefLimits { max_steps: 300_000, max_depth: 20_000 }, property: "C01", name: "c01", universe: None, only_start_zero: false, nontrivial_iff_matched: false };
     drive(&c, cfg, rep, &spec, &opts);
 }
